@@ -177,6 +177,7 @@ func raceKey(blk string) string {
 	// sections: "Write at ... by goroutine N:", "Previous read at ... by goroutine M:"
 	secs := regexp.MustCompile(`(?m)^(Write|Read|Previous write|Previous read|Atomic write|Atomic read|Previous atomic write|Previous atomic read) at .*$`).FindAllStringIndex(blk, -1)
 	var parts []string
+	harnessOnly := true
 	for i, s := range secs {
 		end := len(blk)
 		if i+1 < len(secs) {
@@ -194,9 +195,18 @@ func raceKey(blk string) string {
 		}
 		opName = strings.ToLower(strings.TrimPrefix(opName, "Previous "))
 		inner, outer := "", ""
+		firstNonStd := ""
 		for _, ln := range lines[1:] {
 			if strings.HasPrefix(ln, "  ") && !strings.HasPrefix(ln, "      ") {
 				fn := stripArgs(strings.TrimSpace(ln))
+				// the first frame outside the Go standard library (its packages have no dot in
+				// the first path element) says whose access this is
+				if firstNonStd == "" {
+					first := strings.SplitN(fn, "/", 2)[0]
+					if strings.HasPrefix(fn, "semaverif/") || strings.Contains(first, ".") && !strings.HasPrefix(fn, "golang.org/x/") {
+						firstNonStd = fn
+					}
+				}
 				if isSema(fn) {
 					if inner == "" {
 						inner = shortFn(fn)
@@ -206,8 +216,16 @@ func raceKey(blk string) string {
 			}
 		}
 		parts = append(parts, opName+"@"+inner+"<"+outer)
+		if !strings.HasPrefix(firstNonStd, "semaverif/") {
+			harnessOnly = false
+		}
 	}
 	sort.Strings(parts)
+	if harnessOnly && len(secs) > 0 {
+		// both accesses are made by harness code (e.g. two harness goroutines sharing a PRNG): a bug
+		// of the machinery, never a verdict about the property
+		return "HARNESS:" + strings.Join(parts, " || ")
+	}
 	return strings.Join(parts, " || ")
 }
 
